@@ -129,6 +129,16 @@ func init() {
 					}
 				}
 			}
+			// heterogeneous input: consecutive blocks of different detected data types, codecs whose
+			// transforms look at the per-block context (dataType)
+			for _, cd := range [][2]string{{"ROLZ", "NONE"}, {"TEXT+LZ", "HUFFMAN"}, {"RLT+LZX", "ANS0"}, {"TEXT+UTF+PACK+MM+LZX", "HUFFMAN"}, {"EXE+RLT+TEXT+UTF+DNA", "FPAQ"}, {"DNA+LZ", "HUFFMAN"}, {"LZP+TEXT+UTF+BWT+LZP", "ANS1"}} {
+				for _, j := range []uint{2, 3, 4, 5, 8} {
+					for _, nb := range []int{int(j) + 1, 2*int(j) + 3, 19} {
+						emit(detCase{P: Params{cd[0], cd[1], B, j, 32, -1, false}, Shape: "mixed", Len: nb*B + 100, Reps: 2})
+						emit(detCase{P: Params{cd[0], cd[1], 4 * B, j, 0, int64(4*nb*B + 100), false}, Shape: "mixed", Len: 4*nb*B + 100, Reps: 1})
+					}
+				}
+			}
 			// (iii) compositions of the input into Write calls
 			alpha := []int{1, 15, 16, 17, B - 1, B, B + 1, 2 * B, 3 * B}
 			total := 3*B + B/2
